@@ -13,7 +13,7 @@ pub fn property() -> Property {
     Property {
         id: "C03",
         level: "exploration",
-        rule: "Bounded-exhaustive matrix: 4 methods (GET, HEAD, POST, PURGE) x 12 status codes x 19 Content-Length configurations (absent, valid, repeated equal, disagreeing, negative, empty, non-numeric, > 64 bit, ...) x 11 Transfer-Encoding configurations x {no extra bytes, extra bytes after the frame} (x 3 segmentations in thorough). The bytes after the head are chosen so that every framing interpretation (empty / chunked / length n / close) yields a different, recognisable body; the reference decision list is written from the statement. Oracle: delivered body == the body of the expected framing, or the exchange fails when the statement says it must. Followed redirects (301/302/303/307/308) x 8 Content-Length configurations: an unusable length on the redirect response fails the exchange before a second request is made. Non-trivial: every case (a decision is exercised); distinct = hash of the head + body wire + segmentation.",
+        rule: "Bounded-exhaustive matrix: 4 methods (GET, HEAD, POST, PURGE) x 12 status codes x 22 Content-Length configurations (absent, valid, repeated equal, disagreeing, negative, empty, non-numeric incl. control characters, > 64 bit, ...) x 11 Transfer-Encoding configurations x {no extra bytes, extra bytes after the frame} (x 3 segmentations in thorough). The bytes after the head are chosen so that every framing interpretation (empty / chunked / length n / close) yields a different, recognisable body; the reference decision list is written from the statement. Bodiless responses (HEAD, 1xx, 204, 304) additionally declare gzip/deflate codings in three quarters of the cells. Oracle: delivered body == the body of the expected framing, or the exchange fails when the statement says it must. Followed redirects (301/302/303/307/308) x 8 Content-Length configurations: an unusable length on the redirect response fails the exchange before a second request is made. Non-trivial: every case (a decision is exercised); distinct = hash of the head + body wire + segmentation.",
         assumptions: &[
             "gray combinations are executed but not judged: chunked not last in the Transfer-Encoding list, invalid Content-Length next to chunked, list-valued or sign-prefixed Content-Length, invalid Content-Length on a response that has no body anyway",
         ],
@@ -57,10 +57,15 @@ fn cl_config(i: usize) -> (Vec<&'static str>, ClVerdict) {
         16 => (vec!["Content-Length: 7, 7"], ClVerdict::Gray),
         17 => (vec!["Content-Length: +7"], ClVerdict::Gray),
         18 => (vec!["Content-Length: 7", "Content-Length: seven"], ClVerdict::Invalid),
+        // not numeric because of a control character (such a field line is not a valid header
+        // line at all: it must not simply be dropped)
+        19 => (vec!["Content-Length: 7\x7f"], ClVerdict::Invalid),
+        20 => (vec!["Content-Length: 7", "Content-Length: 8\x01"], ClVerdict::Invalid),
+        21 => (vec!["Content-Length: 8\x0b", "Content-Length: 7"], ClVerdict::Invalid),
         _ => unreachable!(),
     }
 }
-const N_CL: usize = 19;
+const N_CL: usize = 22;
 
 #[derive(Clone, Copy, Debug, PartialEq)]
 enum TeVerdict {
@@ -149,6 +154,20 @@ fn run_matrix(ctx: &mut Ctx, rng: &mut Rng, index: u64, seg_class: u8) {
         lines.extend(&cl_lines);
         lines.extend(&te_lines);
     }
+    let no_body = method == "HEAD" || (100..200).contains(&status) || status == 204 || status == 304;
+    // "whatever its headers say": a bodiless response may also repeat the content coding of the
+    // entity it talks about (a 304 for a gzip-coded resource); the empty body stays readable
+    if no_body {
+        match index % 4 {
+            1 => lines.push("Content-Encoding: gzip"),
+            2 => lines.push("Content-Encoding: deflate"),
+            3 => lines.push("Transfer-Encoding: gzip"),
+            _ => {}
+        }
+        if index % 4 != 0 {
+            ctx.count("bodiless_responses_declaring_a_content_coding", 1);
+        }
+    }
     for l in &lines {
         wire.extend_from_slice(l.as_bytes());
         wire.extend_from_slice(b"\r\n");
@@ -161,7 +180,6 @@ fn run_matrix(ctx: &mut Ctx, rng: &mut Rng, index: u64, seg_class: u8) {
     }
     let body_wire = wire[head_len..].to_vec();
 
-    let no_body = method == "HEAD" || (100..200).contains(&status) || status == 204 || status == 304;
     let expect = if no_body {
         if clv == ClVerdict::Invalid || clv == ClVerdict::Gray { Expect::Gray } else { Expect::Empty }
     } else {
